@@ -41,6 +41,8 @@ func enumLeaves(l *locGen, inClosure bool) []func() ast.Node {
 		func() ast.Node { return setLoc(&ast.BoolNode{Value: true}, l) },
 		func() ast.Node { return setLoc(&ast.BoolNode{Value: false}, l) },
 		func() ast.Node { return setLoc(&ast.StringNode{Value: "a"}, l) },
+		func() ast.Node { return setLoc(&ast.StringNode{Value: "^a"}, l) }, // same text as the regexp pattern used below
+		func() ast.Node { return setLoc(&ast.IdentifierNode{Value: "Z"}, l) },  // nil at run time
 		func() ast.Node { return setLoc(&ast.ConstantNode{Value: []int{1, 2, 3}}, l) },
 		func() ast.Node { return setLoc(&ast.ConstantNode{Value: map[int]struct{}{2: {}}}, l) },
 	}
